@@ -156,6 +156,7 @@ class Surface:
     paraboloid  P = O + s (u e1 + v e2 + (a u^2 + b v^2 + c u v) e3)
     cylinder    P = O + s (cos u e1 + sin u e2) + s a v e3
     sphere      P = O + s (cos v cos u e1 + cos v sin u e2 + sin v e3)
+    wavy        P = O + s (u e1 + v e2 + a sin(b u) e3)   (many local distance minima: needs initial_params)
     sheared     P = O + u A + v B   (A, B arbitrary independent vectors)"""
 
     def __init__(self, spec):
@@ -178,6 +179,8 @@ class Surface:
         s = self.s
         if self.fam == "paraboloid":
             return self.O + s * (u * e1 + v * e2 + (self.a * u * u + self.b * v * v + self.c * u * v) * e3)
+        if self.fam == "wavy":
+            return self.O + s * (u * e1 + v * e2 + self.a * math.sin(self.b * u) * e3)
         if self.fam == "cylinder":
             return self.O + s * (math.cos(u) * e1 + math.sin(u) * e2) + s * self.a * v * e3
         if self.fam == "sphere":
@@ -195,6 +198,8 @@ class Surface:
         x, y, z = (self.e @ w) / self.s
         if self.fam == "paraboloid":
             return float(x), float(y), self.s * abs(float(z - (self.a * x * x + self.b * y * y + self.c * x * y)))
+        if self.fam == "wavy":
+            return float(x), float(y), self.s * abs(float(z - self.a * math.sin(self.b * x)))
         if self.fam == "cylinder":
             return math.atan2(y, x), float(z / self.a), self.s * abs(math.hypot(x, y) - 1.0)
         if self.fam == "sphere":
@@ -216,7 +221,7 @@ class Surface:
         q = arr(q)
         u0, v0, _ = self.inverse(q)
         inside = box is None or (box[0][0] <= u0 <= box[0][1] and box[1][0] <= v0 <= box[1][1])
-        if inside and self.fam != "paraboloid":
+        if inside and self.fam not in ("paraboloid", "wavy"):
             if self.fam == "sheared":
                 return abs(float(np.dot(q - self.O, self.n)))
             w = self.e @ (q - self.O)
